@@ -106,6 +106,34 @@ func c14Fixed() [][]byte {
 			}
 		}
 	}
+	// a container field of an object that refers back to the list (or map) the object sits in, which is still
+	// being read and whose elements do not fit the field: whatever binds such references late must still turn a
+	// mismatch into an error
+	for _, cls := range []string{"\x05SlStr\x91\x01l", "\x05SlI32\x91\x01l", "\x05SlPtr\x91\x01l", "\x05SlF64\x91\x01l", "\x08MpStrI32\x91\x01m", "\x08MpStrStr\x91\x01m", "\x07AnyList\x92\x01n\x01l"} {
+		def := append([]byte{'C'}, cls...)
+		inst := []byte{0x60}
+		if strings.HasPrefix(cls, "\x07AnyList") {
+			inst = append(inst, 0x91)
+		}
+		for _, form := range []int{0, 1, 2, 3, 4, 5} {
+			var b []byte
+			switch form {
+			case 0: // fixed untyped list of one
+				b = append(append(append([]byte{0x79}, def...), inst...), 0x51, 0x90)
+			case 1: // variable untyped list, a second element behind
+				b = append(append(append(append([]byte{0x57}, def...), inst...), 0x51, 0x90), 0x91, 'Z')
+			case 2: // typed fixed list
+				b = append(append(append([]byte{0x72, 0x07, '[', 'o', 'b', 'j', 'e', 'c', 't'}, def...), inst...), 0x51, 0x90, 0x4e)
+			case 3: // value of an untyped map
+				b = append(append(append([]byte{'H', 0x01, 'k'}, def...), inst...), 0x51, 0x90, 'Z')
+			case 4: // two levels up
+				b = append(append(append([]byte{0x7a, 0x91, 0x79}, def...), inst...), 0x51, 0x90)
+			default: // the definition hoisted in front of the list
+				b = append(append(append(append([]byte{}, def...), 0x79), inst...), 0x51, 0x90)
+			}
+			out = append(out, b)
+		}
+	}
 	// amplification patterns: cost must follow the input, not what it declares or re-uses
 	{
 		var b []byte
@@ -152,6 +180,28 @@ func c14Fixed() [][]byte {
 			b = append(b, 0x51, 0x91)
 		}
 		out = append(out, append(b, 'Z', 0x90))
+		// typed maps whose type name is registered as a struct, each with a field that refers to one big list
+		n, m := 4000, 16000
+		b = append([]byte{0x57, 0x58}, encInt(int32(m))...)
+		for i := 0; i < m; i++ {
+			b = append(b, 0x90)
+		}
+		for i := 0; i < n; i++ {
+			b = append(b, 'M', 0x05, 'S', 'l', 'I', '3', '2', 0x01, 'l', 0x51, 0x91, 'Z')
+		}
+		out = append(out, append(b, 'Z'))
+		// a class definition with thousands of wire fields and thousands of instances opened one inside the
+		// other as the value of the first field, none of them completed
+		w, d := 3000, 12000
+		b = append([]byte{'C', 0x04, 'N', 'o', 'd', 'e'}, encInt(int32(w))...)
+		b = append(b, 0x01, 'a')
+		for i := 1; i < w; i++ {
+			b = append(b, 0x03, 'u', byte('a'+i%26), byte('a'+i/26%26))
+		}
+		for i := 0; i < d; i++ {
+			b = append(b, 0x60)
+		}
+		out = append(out, b)
 	}
 	// back-reference amplification (each found by a seeding sub-agent on the then-current tree):
 	// n references to one list / map from typed fields, queued destinations, a list whose
